@@ -277,6 +277,23 @@ func (c *Ctx) boundComputation() {
 		}
 		return true
 	})
+	// or the library copy: eff := <param>.Clone()
+	ast.Inspect(fi.Decl.Body, func(n ast.Node) bool {
+		as, ok := n.(*ast.AssignStmt)
+		if !ok || len(as.Lhs) != 1 || len(as.Rhs) != 1 {
+			return true
+		}
+		if id, ok := as.Lhs[0].(*ast.Ident); ok && info.ObjectOf(id) == eff {
+			if call, ok := ast.Unparen(as.Rhs[0]).(*ast.CallExpr); ok && len(call.Args) == 0 {
+				if f := gf.StaticCallee(info, call); f != nil && f.Name() == "Clone" && f.Pkg() != nil && strings.HasSuffix(f.Pkg().Path(), "apimachinery/pkg/util/sets") {
+					if r := rootIdent(recvOf(call)); r != nil && info.ObjectOf(r) == info.ObjectOf(slotsP) {
+						copyOK = true
+					}
+				}
+			}
+		}
+		return true
+	})
 	c.Check(copyOK, "C01.3-effective-set-is-a-copy", fi.Obj.Name()+": "+eff.Name(), fi.Decl.Pos(), "the effective set starts as a copy of the given slots (the argument is not modified)", "the effective slot set is not a full copy of the argument")
 	// the walk: for _, s := range eff.List()
 	var walk *ast.RangeStmt
